@@ -634,6 +634,77 @@ FAMILY = [
 ROUTES = ["ctor", "data", "ctor.complement()", "data.complement()", "data-inf", "data-far"]
 
 
+# ==========================================================================================
+# section: histories - an answer depends on the disk's current data only (mc/diffhist.py)
+# ==========================================================================================
+HIST_OPS = ["query", "move0", "move1", "complement", "rebuild", "index0"]
+HIST_MATS = [[[1 + 0j, 1j], [0j, 1 + 0j]], [[2 + 0j, 1 + 0j], [1j, 1 + 0j]]]     # a translation and a loxodromic-type map
+
+
+def _disk_queries(d):
+    return [("circle_parameters", d.circle_parameters), ("center_inside", d.center_inside),
+            ("fs_center", d.fs_center), ("fs_diameter", d.fs_diameter),
+            ("boundary_points", d.boundary_points), ("interior_point", d.interior_point)]
+
+
+def case_history(case):
+    from geometry_tools import projective
+    from geometry_tools.complex_projective import CP1Disk
+    from mc import diffhist
+    specs, ops = case["disks"], case["ops"]
+    ds = [build_disk(sp) for sp in specs]
+    d = ds[0] if len(ds) == 1 else CP1Disk(np.array([np.asarray(x.proj_data) for x in ds]))
+    v, t = [], 1
+
+    def ask(obj):
+        out = []
+        for nm, f in _disk_queries(obj):
+            ok, r = attempt([], nm, f)
+            out.append((nm, r if ok else "raised"))
+        return out
+    for op in ops:
+        t += 1
+        if op == "query":
+            ask(d)
+        elif op in ("move0", "move1"):
+            d = projective.Transformation(np.array(HIST_MATS[int(op[-1])])) @ d
+        elif op == "complement":
+            d = d.complement()
+        elif op == "rebuild":
+            d = CP1Disk(d)
+        elif op == "index0":
+            if len(d.shape) == 0:
+                return {"v": [], "t": t, "o": "n/a", "nt": False}
+            d = d[0]
+    if type(d) is not CP1Disk:
+        return {"v": [{"key": "history/type", "msg": "after %r the object is a %s" % (ops, type(d).__name__)}], "t": t}
+    fresh = CP1Disk(np.array(d.proj_data))
+    for (nm, got), (_, want) in zip(ask(d), ask(fresh)):
+        t += 2
+        if isinstance(got, str) or isinstance(want, str):
+            same = isinstance(got, str) and isinstance(want, str)
+        else:
+            same = diffhist.same_result(diffhist.flatten_result(got), diffhist.flatten_result(want), nm)
+        if not same:
+            add(v, "history/%s/after-%s" % (nm, ops[-1] if ops else "construct"),
+                "disk(s) %r after %r: %s = %r, on a fresh disk with the same data %r" % (specs, ops, nm, got, want))
+            break
+    return {"v": v, "t": t, "o": "%d|%s|%d" % (len(specs), "-".join(ops), len(v)), "nt": len(ops) > 0}
+
+
+def history_cases(seed):
+    seqs = [list(x) for dpt in (2, 3) for x in itertools.product(HIST_OPS, repeat=dpt)
+            if "query" in x[:-1] and x[-1] != "query"]
+    specs = mobius_disks(seed, True)
+    picks = [specs[i % len(specs)] for i in (0, 3, 7)]
+    roots = [[picks[0]], [picks[1]], [picks[0], picks[2]]]
+    for r in roots:
+        for ops in seqs:
+            if "index0" in ops and len(r) == 1:
+                continue
+            yield {"disks": r, "ops": ops}
+
+
 def _frac(x):
     return x - math.floor(x)
 
@@ -965,6 +1036,11 @@ def run(ctx):
                     domains={"matrices": "all %d matrices with entries in {0,+-1,+-i}, det != 0" % len(Ms),
                              "disks": len(specs), "routes": sorted({s["route"] for s in specs}),
                              "modes": ["one Transformation per matrix", "one composite Transformation per 96 matrices"]})
+    if on("histories"):
+        ctx.product("histories", "checks.c20:case_history", list(history_cases(seed)), chunk=16,
+                    domains={"ops": HIST_OPS, "sequences": "all op sequences of length 2..3 with a query before the last (non-query) op",
+                             "roots": "two single disks and one composite (2,) disk",
+                             "oracle": "the same query on a fresh CP1Disk built from the current data (mc/diffhist.py)"})
     if on("moebius") and not q:
         # thorough: products of two alphabet matrices (Gaussian-integer entries of modulus <= 2,
         # poles at new places), applied as composite Transformations
